@@ -21,7 +21,8 @@ LEVEL_NOTE = ("Trusted base: numpy/scipy, qp.matrix / sparse_matrix of the retur
               "read from the lattice object and validated only through textbook invariants (sites per cell, first/second coordination "
               "numbers). A pair that is a k-th neighbour only through a periodic image (including a site's own image on axes of length "
               "<= order) counts literally (sigma_i sigma_i = 1). Full coupling matrices are symmetric; Haldane phase orientation i<j. "
-              "Scalar couplings with neighbour_order>1 are rejected by the implementation (ValueError) and not explored.")
+              "Scalar couplings with neighbour_order>1 are rejected by the implementation (ValueError) and not explored. Kitaev bonds are "
+              "classified by real-space direction as documented; the X/Y label swap and the one-cell-axis failures are known findings.")
 DESIGN_REF = "5.10 C69"
 START = "fork"
 PARALLEL = True
